@@ -204,3 +204,33 @@ CHECKS['C19'] = dict(
          'import of the full text, separator=None is a newline, the public wrapper forwards unchanged.',
     note='Weak claim by design: that exporting pair i reproduces fragment i is NOT decided (needs C07 on every prefix document).',
 )
+
+
+# ---- rules added in the third build round (shared across sibling properties, or new); appended to the claim text of each check
+_ROUND3 = {
+    'C01': 'Also decided: every token reaches the text through the tokenizer of the requested encoding (no raw-text bypass: C04.R4/R5 run here as '
+           'R8), the duration figure sub-token carries the grammar text unchanged (R3), and the signifier sort key has the encoding itself as a '
+           'component.',
+    'C02': 'Also decided: the string and the file reader iterate the text itself, nothing strips or repairs a record before it is split (C20.R1 as R7); '
+           'stage and row counters are decided per path through one turn of the row loop.',
+    'C03': 'Also decided: per cell, what is written depends on the spine and category selection only (the gate rules of C05/C06/C13 as R10); the '
+           'duration figure is kept as written.',
+    'C04': 'Also decided: an export writes nothing to the document (effect analysis from dumps as R8), so the next encoding sees the same document.',
+    'C07': 'Also decided: an export leaves nothing behind (no cached rows, no state) for the export of another range (effect analysis as R5).',
+    'C08': 'Also decided: the stage arithmetic the excerpt and the signature search share (C07.R2 as R9); recording a signature stores one entry and '
+           'removes none.',
+    'C09': 'Also decided here since round 3: the Humdrum spelling codec transpose() reads and writes with is an exact inverse pair (C16.R2/R3 as R5).',
+    'C10': 'Also decided: the conversion callback reaches every note of a chord (C04.R6 as R8); the clef context only records.',
+    'C12': 'Also decided: records reach the importer as written (C20.R1 as R9).',
+    'C13': 'Also decided: the basic encodings are the extended ones with the separators removed, note by note, for every selection (C04.R1/R3 as R4).',
+    'C14': 'Also decided: no set built on a read-only path is iterated to produce a sequence (its order depends on identities / hash seeds, R3); no '
+           'object keeps a one-shot iterator in its state (R2).',
+    'C15': 'Also decided: AgnosticPitch.to_transposed moves up exactly when the direction equals "up" (C09.R3 as R7).',
+    'C16': 'Also decided: import_pitch returns a pitch constructed by the call; no pitch object keeps a one-shot iterator.',
+    'C17': 'Also decided: every listing frequencies takes forwards its filter; is_monophonic lists CHORD / NOTE_REST only.',
+    'C18': 'Also decided: nodes(c) is computed afresh from the hierarchy (C11.R5 as R9); a plain-membership accepted set must list its descendants.',
+    'C19': 'Also decided: a path of concat that does not run the fragment loop still returns (document, pairs).',
+}
+for _k, _v in _ROUND3.items():
+    if _k in CHECKS:
+        CHECKS[_k]['text'] = CHECKS[_k]['text'].rstrip() + ' ' + _v
